@@ -74,18 +74,9 @@ func (StdEng) denseRepeat(t, reuse DenseTensor, newShape Shape, axis, size int, 
 		outers = ProdInts(t.Shape()[0:axis])
 	}
 
-	var stride, newStride int
-	if newShape.IsVector() || t.IsVector() {
-		stride = 1 // special case because CalcStrides() will return []int{1} as the strides for a vector
-	} else {
-		stride = t.ostrides()[axis]
-	}
-
-	if newShape.IsVector() {
-		newStride = 1
-	} else {
-		newStride = d.ostrides()[axis]
-	}
+	// the source and the result are both walked in blocks of everything that lies behind the repeated axis
+	stride := ProdInts(newShape[axis+1:])
+	newStride := stride
 
 	var destStart, srcStart int
 	// fastCopy is not bypassing the copyDenseSliced method to populate the output tensor
